@@ -42,4 +42,7 @@ Inductive tok :=
 | TCCOnNoteWave (no : Z) (ia : list Z)
 | TCCFreq (v : Z)                                  (* M.Frequency(n) *)
 | TPBOnTime (big : Z) (ia : list Z)                (* PB.onTime / p.onTime *)
-| TDecresc (len : list ch) (v1 v2 : Z).            (* Cresc / Decresc *)
+| TDecresc (len : list ch) (v1 v2 : Z)             (* Cresc / Decresc *)
+(* PLAY(part, ...) with literal parts; STR / Str definitions with a literal value *)
+| TPlay (args : list (option marg)) (lineno : Z)
+| TDefStr (name : list ch) (v : option marg).
